@@ -117,9 +117,35 @@ def run_case(case: dict) -> CaseResult:
         tr = dsess.transport
         pending_chunk = []
 
-        def flush():
+        mis = list(case.get("misalign") or [])
+        n_flush = [0]
+        enc_cache: dict = {}
+        skip: dict = {}
+
+        def frame_of(j):
+            """Wire bytes of msg op j (encoded once, in stream order)."""
+            if j not in enc_cache:
+                op_ = ops[j]
+                payload_ = bytes.fromhex(op_["payload"]["hex"]) if isinstance(op_["payload"], dict) and "hex" in op_["payload"] else (
+                    pbgen.build(by_id[op_["type"]], op_["payload"]).SerializeToString() if isinstance(op_["payload"], dict) else b"")
+                enc_cache[j] = dsess.encode((op_["type"], payload_))
+            return enc_cache[j]
+
+        def flush(cur=None):
             if pending_chunk and not tr.closing:
-                tr.feed(b"".join(pending_chunk))
+                data = b"".join(pending_chunk)
+                # reads not aligned to frames: this read ends k bytes into the frame of the NEXT operation (if that is an
+                # incoming message); the rest of that frame arrives with its own read
+                if mis and cur is not None and cur + 1 < len(ops) and ops[cur + 1]["op"] == "msg" and not (noise and not (0 <= ops[cur + 1]["type"] <= 65535)):
+                    k = mis[n_flush[0] % len(mis)]
+                    n_flush[0] += 1
+                    nxt = frame_of(cur + 1)
+                    k = max(0, min(k, len(nxt) - 1))
+                    if k:
+                        skip[cur + 1] = k
+                        data += nxt[:k]
+                        classes.add("reads_not_aligned_to_frames")
+                tr.feed(data)
             pending_chunk.clear()
 
         def model_dispatch(tid: int, payload: bytes):
@@ -182,9 +208,9 @@ def run_case(case: dict) -> CaseResult:
                     continue
                 if tr.closing:
                     break
-                pending_chunk.append(dsess.encode((tid, payload)))
+                pending_chunk.append(frame_of(i)[skip.pop(i, 0):])
                 if not op.get("merge"):
-                    flush()
+                    flush(i)
                     # the model sees frames in feed order; merged frames are dispatched in the same call
                 model_pending.append((tid, payload))
                 if not op.get("merge"):
@@ -247,6 +273,13 @@ def run_case(case: dict) -> CaseResult:
     if s.t0 is None:
         s.close()
         raise HarnessError("C12: session not established")
+    mr = env.results.get("main")
+    if mr is not None and mr[0] == "exc":
+        from vf.runner import repo_frame_of
+
+        if repo_frame_of(mr[1]) is None:
+            s.close()
+            raise HarnessError(f"C12: the scripted history itself failed: {mr[1]!r}")
     # ---- compare
     conn_seq = next(e["seq"] for e in env.trace if e["kind"] == "connected")
     for cid in set(got) | set(exp_got):
@@ -463,7 +496,10 @@ def _history(draw, tier):
         else:
             tid = draw(st.sampled_from(TYPES6))
             ops.append({"op": "msg", "type": tid, "payload": {"hex": draw(st.sampled_from(["08", "0d0100", "ff", "0a05616263", "1880"]))}})
-    return {"kind": "history", "noise": draw(st.integers(0, 3)) == 0, "ops": ops}
+    out = {"kind": "history", "noise": draw(st.integers(0, 3)) == 0, "ops": ops}
+    if draw(st.integers(0, 3)) == 0:
+        out["misalign"] = draw(st.lists(st.sampled_from([0, 1, 1, 2, 3, 4, 9]), min_size=1, max_size=4))
+    return out
 
 
 @st.composite
@@ -545,6 +581,13 @@ def enumerated(tier):
                 sub = {"op": "sub", "id": "c0", "types": types, "script": [{"at": 1, "do": "unsub_self"}] if how == "self" else []}
                 msgs = [{"op": "msg", "type": t, "payload": {"key": k}} for k, t in enumerate([26, 25, 21, 26, 25])]
                 yield {"kind": "history", "noise": noise, "ops": [sub] + msgs[:1] + ([{"op": "unsub", "id": "c0"}] if how == "unsub" else []) + msgs[1:]}
+    # reads that end right behind the next frame's first byte / inside its header
+    for noise in (False, True):
+        for mis in ([1], [2], [1, 3], [4, 1, 2]):
+            msgs = [{"op": "msg", "type": t, "payload": {"key": k}} for k, t in enumerate([26, 25, 21, 26, 27, 26])]
+            yield {"kind": "history", "noise": noise, "misalign": mis, "ops": [{"op": "sub", "id": "c0", "types": [26, 25, 21, 27], "script": []}] + msgs[:3] + [{"op": "peer", "what": "ping"}] + msgs[3:]}
+            yield {"kind": "history", "noise": noise, "misalign": mis, "ops": [{"op": "sub", "id": "c0", "types": [26, 25, 27], "script": []}, {"op": "msg", "type": 26, "payload": {"key": 1}, "merge": True}, {"op": "msg", "type": 25, "payload": {"key": 2}},
+                                                                            {"op": "msg", "type": 27, "payload": {"key": 3, "state": "y" * 200}}, {"op": "msg", "type": 26, "payload": {"key": 4}}]}
     # crossed disconnects: the device's requests arrive while the client's own disconnect is in flight
     for noise in (False, True):
         for what in ("discreq", "ping", "gettime"):
